@@ -26,8 +26,8 @@ HIST = hprop.HistoryProperty(
 )
 RULE = ("(a) component: journeys on routes returned by route() between generated positions (link starts/ends/interiors, snapped cells) on "
         "generated strongly connected street graphs with strongly varying lengths and speeds, the Denver graph and the straight-line "
-        "network, step lengths 1-1800 s, iterated with traverse() to the end of the journey; per step: time-length of the driven part "
-        "<= step + one second per driven link + one cell of snapping, reported distance = sum of driven links, remaining route starts "
+        "network, step lengths 1-1800 s or chosen so that a step runs out just before / after the end of a link, iterated with traverse() to the end of the journey; per step: time-length of the driven part "
+        "<= step + the sub-second part of every link driven to its end (charged in whole seconds) + one cell of snapping, reported distance = sum of driven links, remaining route starts "
         "where the driven part ends, driven + remaining links = original links in order with the same destination, strict progress when the "
         "step can cover >= 5 m, journey ends at the destination. (b) histories: position changes only with exactly one move event from a "
         "travelling activity, odometer = event distance, remaining route is the tail of the previous one and starts at the vehicle, "
@@ -42,15 +42,20 @@ ASSUMPTIONS = hprop.COMMON_ASSUMPTIONS + [
 FLOORS = {"quick": {"journey_steps": 5000, "flag:split_link": 150, "flag:moved": 25}, "thorough": {"journey_steps": 100000}}
 
 CAP = 400  # steps followed per journey
-DT = st.sampled_from([1, 2, 5, 7, 15, 30, 45, 60, 90, 120, 300, 900, 1800])
+# step lengths: absolute seconds, or ["rel", k, f]: chosen against the journey so that the k-th step runs out a fraction ~f/(k+f)
+# before (f > 0) or after (f < 0) the end of the first link - the boundary cases of the code that splits a link
+DT = st.one_of(st.sampled_from([1, 2, 5, 7, 15, 30, 45, 60, 90, 120, 300, 900, 1800]),
+               st.sampled_from([1, 2, 5, 7, 15, 30, 45, 60, 90, 120, 300, 900, 1800]),
+               st.tuples(st.just("rel"), st.sampled_from([1, 1, 2, 3]), st.sampled_from([0.0005, 0.002, 0.005, 0.008, 0.02, 0.05, -0.002, -0.01])).map(list))
 
 
 @st.composite
 def st_case(draw) -> Dict[str, Any]:
     net = draw(st.sampled_from(["gen", "gen", "denver", "hav"]))
     g = draw(graphs.st_graph(4, 12)) if net == "gen" else None
+    far = draw(st.sampled_from([1, 1, 5])) if net == "hav" else 1  # straight-line journeys of up to ~3 km or ~15 km
     pos = graphs.st_position() if net != "hav" else st.tuples(st.just("cell"), st.integers(0, 300), st.integers(0, 300)).map(
-        lambda t: ["cell", round(graphs.LAT0 + t[1] * 0.00008, 6), round(graphs.LON0 + t[2] * 0.00008, 6)])
+        lambda t: ["cell", round(graphs.LAT0 + t[1] * 0.00008 * far, 6), round(graphs.LON0 + t[2] * 0.00008 * far, 6)])
     pairs = draw(st.lists(st.tuples(pos, pos, DT).map(list), min_size=1, max_size=6))
     return {"net": net, "graph": g, "pairs": pairs}
 
@@ -88,6 +93,10 @@ def check_case(case: Dict[str, Any]) -> Tuple[List[Violation], Set[str], Dict[st
         if not route or route[0].start == route[-1].end:
             stats["closed_or_empty_routes"] += 1
             continue
+        if isinstance(dt, list):
+            first = next(l for l in route if l.start != l.end)
+            dt = max(1, int(3600.0 * first.distance_km / first.speed_kmph / (dt[1] + dt[2])))
+            flags.add("step_ends_near_a_link_end")
         dest = route[-1].end
         steps = 0
         last_end = route[0].start
@@ -111,7 +120,10 @@ def check_case(case: Dict[str, Any]) -> Tuple[List[Violation], Set[str], Dict[st
                 break
             speeds = [rn.link_from_link_id(l.link_id).speed_kmph for l in E]
             tt = sum(3600.0 * l.distance_km / s for l, s in zip(E, speeds))
-            allow = dt + len(E) + 3600.0 * 0.002 / min(speeds) + 1e-6
+            # the simulator charges whole seconds for a link driven to its end: the truncated fraction is free road
+            times = [3600.0 * l.distance_km / s for l, s in zip(E, speeds)]
+            done = times[:-1] if (R2 and R2[0].link_id == E[-1].link_id) else times
+            allow = dt + sum(t - int(t) for t in done) + 3600.0 * 0.002 / min(speeds) + 1e-6
             if tt > allow:
                 bad("covered more road than the link speeds allow in one step", driven_s=tt, allowed_s=allow, links=len(E))
             if abs(res.traversal_distance_km - sum(l.distance_km for l in E)) > 1e-9:
